@@ -75,6 +75,7 @@ type GenCfg struct {
 	NoFn          bool
 	MixedUnknown  bool // allow per-command unknown-mode overrides
 	NoCmdRO       bool // never set require-order on a sub-command only
+	CmdRO         bool // allow require-order on sub-commands even when the root never has it
 	Descriptions  bool
 	Valid         bool // allow ValidValues / SuggestedValues
 	SetCalled     bool
@@ -239,7 +240,7 @@ func (g *genCtx) cmd(name string, depth int, used map[string]bool) CmdSpec {
 			if g.cfg.NoFn && rapid.IntRange(0, 6).Draw(t, "nofn") == 0 {
 				ch.NoFn = true
 			}
-			if g.cfg.RequireOrder == 1 && !g.cfg.NoCmdRO && rapid.IntRange(0, 7).Draw(t, "cmdro") == 0 {
+			if (g.cfg.RequireOrder == 1 || g.cfg.CmdRO) && !g.cfg.NoCmdRO && rapid.IntRange(0, 7).Draw(t, "cmdro") == 0 {
 				ch.RequireOrder = true
 			}
 			c.Cmds = append(c.Cmds, ch)
@@ -533,7 +534,7 @@ func (a *ArgvGen) spellOption(l *Level, key string) []string {
 
 func (a *ArgvGen) unknownTok() string {
 	t := a.t
-	names := []string{"unk", "zzz", "W", "Q", "wq", "nope", "unknown-opt", "Z", "0", "ü"}
+	names := []string{"unk", "zzz", "W", "Q", "wq", "nope", "unknown-opt", "Z", "0", "ü", "12", "1.5", "99"}
 	n := rapid.SampledFrom(names).Draw(t, "unkname")
 	if rapid.IntRange(0, 2).Draw(t, "unkelsewhere") == 0 {
 		// a name declared elsewhere in the tree but not visible (not even as a prefix) at this level:
@@ -639,7 +640,7 @@ func (a *ArgvGen) Step() bool {
 		a.ended = true
 		return false
 	default:
-		a.Argv = append(a.Argv, sampled(t, "hostile", []string{"-", "", "--x=", "-é", "--日本", "-1", "-x=5", "--no-such=1", "-\xff", "--a\nb=c", "--v", "-v", "-vv", "--ver", "--h"}))
+		a.Argv = append(a.Argv, sampled(t, "hostile", []string{"-", "", "--x=", "-é", "--日本", "-1", "-12", "-1.5", "-007", "-3e2", "-99", "-x=5", "--no-such=1", "-\xff", "--a\nb=c", "--v", "-v", "-vv", "--ver", "--h"}))
 		a.Kinds = append(a.Kinds, "hostile")
 	}
 	return true
